@@ -103,6 +103,21 @@ def value_sources(fn, node, limit=400):
                 if rhs is not None:
                     stack.append(rhs)
                 else:
+                    # element / field write `x[i] = e`, `x.f = e`, `x[i] |= e`: the written value is part of x's sources
+                    pm = fn.parent_map()
+                    j = site
+                    p = pm.get(j)
+                    while p is not None and fn.nodes[p]['k'] in ('ParenExpr', 'ImplicitCastExpr', 'MemberExpr', 'ArraySubscriptExpr') and \
+                            fn.kids(p) and fn.kids(p)[0] == j:
+                        j, p = p, pm.get(p)
+                    if p is not None:
+                        pn = fn.nodes[p]
+                        if pn['k'] in ('BinaryOperator', 'CompoundAssignOperator') and pn.get('op', '').endswith('=') and \
+                                pn['op'] not in ('==', '!=', '<=', '>=') and fn.kids(p)[0] == j:
+                            stack.append(p)
+                        elif pn['k'] == 'CXXOperatorCallExpr' and pn.get('op', '').endswith('=') and pn['op'] not in ('==', '!=', '<=', '>=') \
+                                and len(fn.kids(p)) == 3 and fn.kids(p)[1] == j:
+                            stack.append(p)
                     stack.append(site)
         stack.extend(fn.kids(i))
     return seen
